@@ -298,6 +298,8 @@ type s2Launch struct {
 	ktrace     []ktrace
 	gate       string
 	final      bool
+	// the child announced itself at the sync point (wrote the sync word) during this launch
+	syncWritten bool
 }
 
 type s2plan struct {
@@ -396,6 +398,7 @@ func (k *simk) finishLaunch(l *s2Launch, r, before *forkexec.Runner, filesBackin
 	if l.child != nil {
 		l.snap = l.child.snap
 	}
+	l.syncWritten = k.evChildSyncWrite >= 0
 	// caller's configuration must be unchanged
 	after := deepCopyRunner(r)
 	after.SyncFunc, before.SyncFunc = nil, nil
